@@ -282,7 +282,18 @@ where
             let i = i.as_i64();
             quote!(#i)
         }
-        Value::Enum(en) => quote!(#en),
+        Value::Enum(en) => ty
+            .as_enum_id()
+            .map(|enum_id| {
+                // Same identifiers as the generated enum and its variants (see enums.rs).
+                let normalization = options.normalization();
+                let enum_name = normalization.enum_name(&query.schema.get_enum(enum_id).name);
+                let enum_name = Ident::new(&enum_name, Span::call_site());
+                let variant = shared::keyword_replace(normalization.enum_variant(en.as_ref()));
+                let variant = Ident::new(variant.as_ref(), Span::call_site());
+                quote!(#enum_name::#variant)
+            })
+            .unwrap_or_else(|| quote!(compile_error!("Enum value on a non-enum field."))),
         Value::List(inner) => {
             let elements = inner
                 .iter()
